@@ -151,7 +151,9 @@ def real_answer(tie, data):
     return "ok", r
 
 
-def compare(ctx, tie, what, desc, ans, rstat, rvals):
+def compare(ctx, tie, what, desc, ans, rstat, rvals, instance=False):
+    """`instance`: `ans` is the specification side's expectation for a header that meets every hypothesis of the decode
+    theorem - a real class that reports something else does not report what the header encodes (a failing input)"""
     mstat, mvals = parse_answer(ans)
     if mstat == "err:notimplemented":
         ctx.hist["infob:%s:outside-model" % tie.name] += 1
@@ -178,6 +180,12 @@ def compare(ctx, tie, what, desc, ans, rstat, rvals):
     for k in rvals:
         if k not in seen:
             bad[k] = ("<missing>", rvals[k])
+    if bad and instance and ctx.prop == "C05":
+        k = sorted(bad)[0]
+        ctx.violation("infob:%s:theorem-instance:%s" % (tie.name, k),
+                      "the header fields encode %s = %s (decode theorem of %s, all hypotheses met) but the real class reports %r"
+                      % (k, bad[k][0], tie.name, bad[k][1]), desc)
+        return False
     if bad:
         ctx.disagree("%s %s: attributes" % (tie.name, what), desc, model=repr(bad)[:400], impl=None)
         return False
@@ -285,10 +293,13 @@ def run_kind(ctx, tie, scale):
         compare(ctx, tie, "parse", desc, ans, rstat, rvals)
         if exp is not None:
             # the theorem instantiated: OK ∧ partial-hypothesis ⇒ the real class reports `expected`
-            if rstat != "ok":
+            if rstat != "ok" and ctx.prop == "C05":
+                ctx.violation("infob:%s:theorem-instance:raises" % tie.name, "the real class raised (%s) on a header that meets every hypothesis "
+                              "of the decode theorem; the fields encode %s" % (rstat, repr(exp)[:200]), desc)
+            elif rstat != "ok":
                 ctx.disagree("%s: theorem instance: real class raised on an OK header" % tie.name, desc, model="expected " + repr(exp)[:200], impl=rstat)
             else:
-                compare(ctx, tie, "expected", desc, "ok " + " ".join("%s=%s" % kv for kv in exp.items()), rstat, rvals)
+                compare(ctx, tie, "expected", desc, "ok " + " ".join("%s=%s" % kv for kv in exp.items()), rstat, rvals, instance=True)
         if (what.startswith("hm:") or what == "lattice") and rstat == "ok" and pk == "ok":
             pub = pr
             if pub is not None and pub != rvals:
